@@ -3,6 +3,7 @@ CONSTANTS
   Clients = {"c1", "c2"}
   Names = {"a", "b"}
   MaxOps = 2
+  MaxTotal = 4
   OwnDepth = 1
 INVARIANTS DisjointIndependence WellFormedInv
 PROPERTIES Confined
